@@ -7,7 +7,7 @@ CONSTANTS
   ValSet = {}
   TTLSet = {0, 1, 2, 4}
   SizeSet = {0, 1, 2, 3}
-  DTTLSet = {0, 1, 2, 4}
+  DTTLSet = {0, 3}
   TickSet = {1, 2}
   Depth = 18
   Region = FALSE
